@@ -60,6 +60,8 @@ def run_native(scenarios, profile='release', tag='x'):
     out = os.path.join(H.BUILD, 'scen', '%s_%d.out.json' % (tag, os.getpid()))
     with open(inp, 'w') as f:
         json.dump({'scenarios': scenarios}, f)
+    global LAST_NATIVE
+    LAST_NATIVE = scenarios
     p = subprocess.run([b, inp, out], stdout=subprocess.DEVNULL, stderr=subprocess.PIPE)
     if p.returncode != 0 or not os.path.exists(out):
         raise Unsupported('native replay failed: %s' % p.stderr.decode()[-500:])
@@ -69,9 +71,17 @@ def run_native(scenarios, profile='release', tag='x'):
     return res
 
 
+LAST_NATIVE = None
+
+
 def save_replay(prop, name, doc):
+    """a replay document: the counterexample, what the native run returned, and - so that
+    `./.build/replay/release/verif-replay <document>` re-runs it against the current /repo build - the native scenarios of the
+    last native run made for it"""
     d = os.path.join(H.VERIF, 'evidence', 'replays')
     os.makedirs(d, exist_ok=True)
+    if isinstance(doc, dict) and 'scenarios' not in doc and LAST_NATIVE is not None and len(LAST_NATIVE) <= 4:
+        doc = dict(doc, scenarios=LAST_NATIVE)
     p = os.path.join(d, '%s_%s.json' % (prop, name))
     with open(p, 'w') as f:
         json.dump(doc, f, indent=1, default=str)
